@@ -636,6 +636,13 @@ def origin_in_trace(tr, idx, path, maxsteps=8):
                     return path, idx
                 path, idx = tr[j]['args'][0].get('path'), j
                 continue
+            if re.search(r'::operator [A-Za-z_]', callee):
+                # a conversion (coroutine_handle<P> -> coroutine_handle<>): the value is the converted object
+                j = next((j for j in range(idx - 1, -1, -1) if tr[j].k == 'call' and tr[j].get('recv') and norm(tr[j].get('callee') or '') == norm(callee)), None)
+                if j is None:
+                    return path, idx
+                path, idx = tr[j]['recv'], j
+                continue
             # a helper that was expanded: the value is what its body returned on this path
             j = next((j for j in range(idx - 1, -1, -1) if tr[j].k == 'leave' and norm(tr[j].ev.get('callee') or '') == norm(callee)), None)
             if j is None:
